@@ -113,6 +113,10 @@ type runCase struct {
 	history  []string
 	reorders int
 	maxPend  int
+	// hooks of the file runs
+	onSubmit func(j *simrun.Job)
+	onFinish func(j *simrun.Job)
+	yield    func()
 }
 
 func (rc *runCase) logf(f string, a ...any) { rc.history = append(rc.history, fmt.Sprintf(f, a...)) }
@@ -315,6 +319,9 @@ func (rc *runCase) drive(t *rapid.T, ix *modelIndex) core.MetadataState {
 			seen++
 			rc.logf("submit %s", j)
 			rc.checkJobStart(t, ix, j)
+			if rc.onSubmit != nil {
+				rc.onSubmit(j)
+			}
 		}
 	}
 	stall := 0
@@ -336,6 +343,9 @@ func (rc *runCase) drive(t *rapid.T, ix *modelIndex) core.MetadataState {
 			}
 		}
 		rc.logf("sched %s", pat)
+		if rc.yield != nil {
+			rc.yield()
+		}
 		st := sim.State()
 		if st == core.Complete || st == core.DisabledState || st == core.Failed {
 			// make sure the final state is not stale
@@ -371,6 +381,9 @@ func (rc *runCase) drive(t *rapid.T, ix *modelIndex) core.MetadataState {
 				rc.reorders++
 			}
 			j := pending[idx]
+			if rc.onFinish != nil {
+				rc.onFinish(j)
+			}
 			if err := sim.Finish(j); err != nil {
 				t.Fatalf("INFRA: finishing %s: %v", j, err)
 			}
